@@ -1,5 +1,6 @@
 """C05 -- pose bookkeeping: position x+shift and orientation transform rigidly"""
 from .common import *
+from . import C09 as _c09
 
 TITLE = "Pose bookkeeping: position x+shift and orientation transform rigidly"
 EXPLANATION = (
@@ -267,6 +268,7 @@ def o57(ctx):
 
 def _obligations():
     return [
+        Obligation("O5.8", "dimensions_load (flip_handedness): an N x 4 table comes back as given, one triplet is repeated per listed tomogram (shared with C09)", _c09.o99, floor=10),
         Obligation("O5.7", "get_rotations observes the current table: zxz rotation of (phi, theta, psi)", o57, floor=2),
         Obligation("O5.1", "get_coordinates = (x,y,z) + (shift_x,shift_y,shift_z) in both branches", o51, floor=9),
         Obligation("O5.2", "update_coordinates: x' = round-half-up(x+shift), shift' = residual, x'+shift' invariant", o52, floor=9),
@@ -278,4 +280,4 @@ def _obligations():
 
 
 def obligations():
-    return _obligations() + [labels_obligation("C05"), selectors_obligation("C05"), effects_obligation("C05"), plumbing_obligation("C05")]
+    return _obligations() + [labels_obligation("C05"), selectors_obligation("C05"), effects_obligation("C05"), plumbing_obligation("C05"), overrides_obligation("C05"), options_obligation("C05")]
